@@ -47,11 +47,11 @@ Example C08_type_example :
     Ok (TArray 0 28 (TStruct 6 27 [(Some {| id_pos := 13; id_end := 14; id_name := bs "a" |}, TArray 15 26 (TSimple 21 (bs "INT64")))]), [e])%Z.
 Proof. exact nested_closers. Qed.
 
-(* ---- entry points agree, on the statement family of Parse/StmtModel.v: for a statement that starts with CREATE, DROP, ANALYZE, RENAME, GRANT or REVOKE,
+(* ---- entry points agree, on the statement family of Parse/StmtModel.v: for a statement that starts with CREATE, DROP, ANALYZE, RENAME, GRANT, REVOKE or ALTER,
    parseStatement (no statement hint) and parseDDL return the same node, the same rest and the same number of errors ---- *)
 From Verif Require Import Parse.StmtModel Parse.StmtProofs.
 Theorem C08_statement_and_ddl_entry_points_agree : forall ts,
   kis (cur ts) "CREATE" || is_kwlike (cur ts) "DROP" || is_kwlike (cur ts) "ANALYZE" || is_kwlike (cur ts) "RENAME"
-  || is_kwlike (cur ts) "GRANT" || is_kwlike (cur ts) "REVOKE" = true -> sp_stmt ts = sp_ddl ts.
+  || is_kwlike (cur ts) "GRANT" || is_kwlike (cur ts) "REVOKE" || is_kwlike (cur ts) "ALTER" = true -> sp_stmt ts = sp_ddl ts.
 Proof. exact family_entry_points_agree. Qed.
 Print Assumptions C08_statement_and_ddl_entry_points_agree.
